@@ -29,7 +29,19 @@ OnlyA == {"A"}
 OnlyB == {"B"}
 Both == {"A", "B"}
 
-Cnt(F(_, _)) == [x \in {"A", "B"} |-> [p \in MCP |-> F(x, p)]]
+Two == {"A", "B"}
+Three == {"A", "B", "C"}
+LinkAB == {{"A", "B"}}
+LinkStar == {{"A", "B"}, {"A", "C"}}
+OnlyBC == {"B", "C"}
+NoDelay == {"0"}
+AllDelays == {"0", "tm", "tp", "min"}
+NoWaits == {}
+AllWaits == {"tm", "tp", "min"}
+MCEntries3 == {E("/v/a", "prefix"), E("/v/a/1", "exact"), E("/v/b", "exact")}
+MCReqs3h == ReqsUpTo(2, {"/v/a", "/v/a/1", "/v/b"})
+
+Cnt(F(_, _)) == [x \in Hosts |-> [p \in MCP |-> F(x, p)]]
 St == [tbl |-> tbl, K |-> K, st |-> st, out |-> Cnt(Out), inn |-> Cnt(In)]
 EmitEdge == PrintT(<<"VFEDGE", ToJson([s |-> St, op |-> op', t |-> St'])>>)
 MCInit == Init /\ PrintT(<<"VFINIT", ToJson(St)>>)
